@@ -15,6 +15,8 @@ import (
 // C02 — Add, Double, Subtract, Negate implement the group law with no exceptional cases.
 
 type c02Case struct {
+	// Conc != 0: a concurrent batch (8 goroutines on objects they own) derived from this seed; other fields unused.
+	Conc uint64 `json:"concurrent_seed,omitempty"`
 	Op    string        `json:"op"` // add | sub | double | negate | add-nil | sub-nil | assoc | addsub
 	A     mon.ElemCase  `json:"a"`
 	B     *mon.ElemCase `json:"b,omitempty"`
@@ -40,7 +42,7 @@ func init() {
 			"Steered cases: λ is solved so that a first-level intermediate of the formulas (Y^2, Z^2, YZ, XY, X, Y for doubling; X1X2, Y1Y2, Z1Z2, X+Y, Y+Z, X+Z for addition) lands on a structured STORED value " +
 			"(specials, ±3 around every multiple of 2^252..2^255, around j*p/2, j*p/4, j*p/8): the thin sets on which a hand-optimised small multiple or lazy reduction inside a formula errs. " +
 			"Trap cases: the argument lives in an mmap'd page made read-only during the call (a write-then-restore of the argument is invisible to before/after comparison). History cases: the receiver reached its value through each mutator after holding, and operating with, another value. " +
-			"non-trivial = at least one operand is not O, or an identity in non-canonical form; distinct by the whole case.",
+			"non-trivial = at least one operand is not O, or an identity in non-canonical form; distinct by the whole case. Plus concurrent batches: 8 goroutines run the operations simultaneously on objects they own, each result judged against the oracle.",
 		NewCase:  func() any { return &c02Case{} },
 		Generate: c02Generate,
 		Run:      c02Run,
@@ -56,6 +58,8 @@ func init() {
 }
 
 func c02Generate(c *mon.Ctx) {
+	concBatches(c, c.N(6, 300), func(seed uint64) any { return &c02Case{Conc: seed} })
+
 	pool := gen.NewPool(c.SharedRng("pool"), 8)
 	sr := c.SharedRng("structured")
 
@@ -279,6 +283,11 @@ func c02Guard(c *mon.Ctx) *mon.Guard {
 
 func c02Run(c *mon.Ctx, csAny any) {
 	cs := csAny.(*c02Case)
+
+	if cs.Conc != 0 {
+		c02RunConc(c, cs.Conc)
+		return
+	}
 
 	if cs.Move != nil {
 		cs.A = mon.ElemCase{P: cs.Move.To, R: mon.ReprCase{Kind: "moved:" + cs.Move.Via, L: "1"}}
